@@ -294,6 +294,7 @@ struct Shared {
     stash: Vec<Mutex<Vec<Waker>>>,
     produced: Vec<AtomicU32>, // sources: items handed out
     task_wakes: [AtomicU32; 2],
+    tw_live: std::sync::atomic::AtomicIsize,
     threads_done: AtomicUsize,
     polled_after_done: AtomicBool,
 }
@@ -326,6 +327,7 @@ impl Shared {
             stash: (0..n).map(|_| Mutex::new(Vec::new())).collect(),
             produced: (0..n).map(|_| AtomicU32::new(0)).collect(),
             task_wakes: [AtomicU32::new(0), AtomicU32::new(0)],
+            tw_live: std::sync::atomic::AtomicIsize::new(0),
             threads_done: AtomicUsize::new(0),
             polled_after_done: AtomicBool::new(false),
         }
@@ -412,6 +414,17 @@ impl Drop for SSrc {
 struct TaskW {
     k: usize,
     sh: Arc<Shared>,
+}
+impl TaskW {
+    fn new(k: usize, sh: &Arc<Shared>) -> Arc<TaskW> {
+        sh.tw_live.fetch_add(1, Ordering::SeqCst);
+        Arc::new(TaskW { k, sh: sh.clone() })
+    }
+}
+impl Drop for TaskW {
+    fn drop(&mut self) {
+        self.sh.tw_live.fetch_sub(1, Ordering::SeqCst);
+    }
 }
 impl Wake for TaskW {
     fn wake(self: Arc<Self>) {
@@ -646,7 +659,7 @@ fn execution(sc: &Scenario) {
     let pushes = sc.poller.iter().filter(|p| matches!(p, POp::Push)).count();
     let total = n + pushes;
     let sh = Arc::new(Shared::new(total));
-    let tw: Vec<Waker> = (0..2).map(|k| Waker::from(Arc::new(TaskW { k, sh: sh.clone() }))).collect();
+    let tw: Vec<Waker> = (0..2).map(|k| Waker::from(TaskW::new(k, &sh))).collect();
     let mk = |i: usize| SFut { id: i, sh: sh.clone() };
     let ms = |i: usize| SSrc { id: i, sh: sh.clone() };
     let cap = n + sc.extra_cap as usize;
@@ -946,6 +959,7 @@ fn execution(sc: &Scenario) {
         drop(st);
     }
     drop(tw);
+    let tw_alive = sh.tw_live.load(Ordering::SeqCst);
     LEDGER.with(|l| {
         let mut l = l.borrow_mut();
         l.active = false;
@@ -953,6 +967,14 @@ fn execution(sc: &Scenario) {
         if !leaked.is_empty() {
             l.violations
                 .push((3, "C03/block-leaked".into(), format!("{} blocks never released", leaked.len())));
+        } else if tw_alive != 0 {
+            // I15: every block reported released, yet somebody still references a task waker: a block was freed
+            // without destroying the registration cell in its header
+            l.violations.push((
+                3,
+                "C03/task-waker-leaked".into(),
+                format!("{tw_alive} task-waker objects still referenced after the collection, its children and every waker are gone"),
+            ));
         }
         stats.switches_in_crate = l.switches_in_crate;
         stats.preemptions = l.preemptions_in_crate;
